@@ -321,7 +321,14 @@ func Ratio(r *big.Rat) string {
 }
 
 // portion literal text -> option ratio, with the real ParsePortionSpecific
-func portionOpt(text string) string {
+func portionOpt(text string) (out string) {
+	// the real parser function is glue here; if it panics the compiler panics on the same text and the
+	// C12 oracle reports that: the AST dump must survive
+	defer func() {
+		if r := recover(); r != nil {
+			out = "None"
+		}
+	}()
 	p, err := machine.ParsePortionSpecific(text)
 	if err != nil || p == nil {
 		return "None"
